@@ -3,6 +3,7 @@ CONSTANTS
   MaxParams = 2
   Shapes = {1,2}
   Rich = FALSE
+  WithNone = TRUE
   SecondStep = TRUE
   WithIdx <- WithIdxNoShift
 INVARIANT InputScoped
